@@ -2,7 +2,7 @@
 # builds the rewriter and warms the go1.26.8 build cache; offline
 set -e
 export GOFLAGS=-mod=mod GOPROXY=off GOSUMDB=off GOTOOLCHAIN=local
-V=/verif
+V="${VERIF_DIR:-$(cd "$(dirname "${BASH_SOURCE[0]}")" && pwd)}"
 mkdir -p $V/bin
 (cd $V/tools && go1.26.8 build -o $V/bin/simprep ./simprep)
 (cd $V/sim && go1.26.8 vet ./... )
